@@ -460,3 +460,40 @@ func EngAllowed(prev, st *EngStep, label string) string {
 	}
 	return ""
 }
+
+// ---------------------------------------------------------------------------------------------
+// Fixed witness of the finding tool-output-renamed-same-content-user-not-rebuilt: `use` writes the NAMES of the outputs
+// of its tool `gen` ($TOOLS); the output of gen is renamed gen.out -> gen2.out with identical content. sourceHash writes
+// only the content hash of a tool output and the rule hash of use lists the label of gen, not its outs: use is not
+// re-run and keeps "gen.out".
+
+const ToolRenameClass = "tool-output-renamed-same-content-user-not-rebuilt"
+
+func toolRenameSpec(out string) *Spec {
+	p := &Pkg{Files: map[string]string{}}
+	p.Targets = append(p.Targets, &Target{Name: "gen", Kind: "genrule", Outs: []string{out}, Cmd: Cmd{Op: "const", Arg: "tool"}})
+	p.Targets = append(p.Targets, &Target{Name: "use", Kind: "genrule", Tools: []string{"//p:gen"}, Outs: []string{"use.out"}, Cmd: Cmd{Op: "toolnames"}})
+	return &Spec{Pkgs: map[string]*Pkg{"p": p}}
+}
+
+func EngToolRenameWitness() EngWitness {
+	return EngWitness{"tool-output-renamed", []*Spec{toolRenameSpec("gen.out"), toolRenameSpec("gen2.out")}, []string{"//p:gen", "//p:use"}}
+}
+
+// ToolRenameStale: is label's stale output at step k of h explained by the finding - a target whose command writes the
+// names of its tools' outputs, one of whose tools had other output names earlier in the history?
+func ToolRenameStale(h []EngStep, k int, label string) bool {
+	t := h[k].Spec.Target(label)
+	if t == nil || t.Cmd.Op != "toolnames" {
+		return false
+	}
+	for _, tl := range t.Tools {
+		cur := h[k].Spec.Target(tl)
+		for j := 0; j < k && cur != nil; j++ {
+			if old := h[j].Spec.Target(tl); old != nil && strings.Join(old.Outs, " ") != strings.Join(cur.Outs, " ") {
+				return true
+			}
+		}
+	}
+	return false
+}
